@@ -35,7 +35,24 @@ func main() {
 			f.Close()
 		}
 	}
-	out, err := plugin.MarshalResponse(&plugin.Response{})
+	resp := &plugin.Response{}
+	if os.Getenv("VERIF_REC_PATCH") != "" {
+		// a file of our own with two insertion points, and patches whose text mentions the other
+		// point's marker: the assembled text must not depend on the order in which the replacer
+		// visits its map
+		if req, err := plugin.UnmarshalRequest(data); err == nil {
+			name := req.OutputPath + "/verif_plugin_extra.txt"
+			ip1, ip2, ip3 := "verif.p", "verif.q", "verif.r"
+			resp.Contents = []*plugin.Generated{
+				{Name: &name, Content: "A " + plugin.InsertionPoint(ip1) + " B " + plugin.InsertionPoint(ip2) + " C " + plugin.InsertionPoint(ip3) + " D " + plugin.InsertionPoint(ip1)},
+				{InsertionPoint: &ip1, Content: "P[" + plugin.InsertionPoint(ip2) + "]"},
+				{InsertionPoint: &ip2, Content: "Q[" + plugin.InsertionPoint(ip3) + plugin.InsertionPoint(ip1) + "]"},
+				{InsertionPoint: &ip3, Content: "R[" + plugin.InsertionPoint(ip1) + "]"},
+				{InsertionPoint: &ip1, Content: "P2"},
+			}
+		}
+	}
+	out, err := plugin.MarshalResponse(resp)
 	if err != nil {
 		os.Exit(4)
 	}
